@@ -167,9 +167,12 @@ OP_KINDS = ["diy", "dim", "wiy", "diyr", "leap", "cwds", "owds", "d1ad",
             "hold", "held_add", "held_reprs", "dto_proc", "dto_diff", "cli",
             "trunc_add", "consts", "props_epoch", "xuse", "xuse",
             "from_epoch_l", "sh_proc", "sh_now", "sh_fmt", "sh_iter",
-            "sh_parts", "sh_ref"]
+            "sh_parts", "sh_ref", "parse_expr"]
 
 
+MODE_SENSITIVE_DATES = ["2001-02-30T06:00:00Z", "2001-02-29", "2004-W53-1",
+                        "2000-02-29T00Z", "2003-366", "2001-12-31T12Z",
+                        "2002-W53-7T00Z", "20010230"]
 OPER_REFS = ["2021-03-01T00:30:00+01:00", "2020-12-31T23:30:00-01:00",
              "2000-02-29T12:00:00Z", "2001-01-01T00:00:00+05:30",
              "2023-02-30T06:00:00Z", "19991231T2359-0030"]
@@ -316,6 +319,13 @@ def gen_op(rng, kind, hot, handles):
         offs = [rng.choice(DURS) for _ in range(rng.choice([0, 1, 1, 2]))]
         return ["sh_proc", gen_point(rng, hot), offs,
                 rng.choice([None, None] + DUMP_FORMATS)]
+    if kind == "parse_expr":
+        # the module-level convenience parser: a date that exists in some
+        # calendars only must be refused in the others, whatever was parsed
+        # before
+        if rng.random() < 0.6:
+            return ["parse_expr", rng.choice(MODE_SENSITIVE_DATES)]
+        return ["parse_expr", gen_point(rng, hot)]
     if kind == "sh_ref":
         # a second long-lived operator, configured: UTC mode and a reference
         # point of its own (a zoned time next to a month end, a leap day)
@@ -555,6 +565,7 @@ def directed_ops():
     for xi, (xkind, text) in enumerate(X_VALUES):
         for action in X_ACTIONS[xkind]:
             ops.append(["xuse", "x%d" % xi, xkind, text, action])
+    ops += [["parse_expr", t] for t in MODE_SENSITIVE_DATES]
     ops += [["sh_ref", "proc", [], None], ["sh_ref", "proc", ["P1M"], "CCYY-DDD"],
             ["sh_ref", "diff", "2024-03-01T00:00:00Z", False],
             ["sh_parts", "2000-02-28T00:00:00Z", "2001-03-01T00:00:00Z", "P1M",
@@ -842,6 +853,9 @@ def do_op(sim, client, op):
             if kind in ("sh_proc", "sh_now"):
                 return sim.oper.process_time_point_str(
                     op[1], op[2] or None, op[3])
+            if kind == "parse_expr":
+                from metomi.isodatetime import parsers
+                return canon(parsers.parse_timepoint_expression(op[1]))
             if kind == "sh_ref":
                 if op[1] == "proc":
                     return sim.oper_ref.process_time_point_str(
@@ -1369,7 +1383,7 @@ DateTimeOperator.get_calendar_mode DateTimeOperator.get_datetime_strftime
 DateTimeOperator.get_datetime_strptime DateTimeOperator.iter_recurrence_str
 DateTimeOperator.process_time_point_str DateTimeOperator.set_calendar_mode
 DateTimeOperator.strftime DateTimeOperator.strptime Calendar.default
-Calendar.set_mode""".split())
+Calendar.set_mode parsers.parse_timepoint_expression""".split())
 
 
 def api_outside_table():
@@ -1379,7 +1393,8 @@ def api_outside_table():
     import inspect
     from metomi.isodatetime import data, datetimeoper, timezone
     names = []
-    for mod in (data, timezone):
+    from metomi.isodatetime import parsers, dumpers
+    for mod in (data, timezone, parsers, dumpers, datetimeoper):
         short = mod.__name__.rsplit(".", 1)[1]
         for n, o in sorted(vars(mod).items()):
             if n.startswith("_"):
